@@ -129,7 +129,7 @@ $(eval $(call TOOL_ENGINE,c05_tmpl,$(B)/tool/template_threaded.o))
 $(B)/bin/c10_jobs: $(B)/sim/c10/c10_jobs.o $(B)/sim/c10/io_interpose.o $(CORE_OBJ) $(XTP_OBJ) $(B)/libvotca.a
 	@mkdir -p $(dir $@)
 	$(call TLS_CHECK,$(XTP_OBJ) $(B)/repo/tools/src/libtools/thread.o $(B)/repo/tools/src/libtools/mutex.o $(B)/repo/tools/src/libtools/property.o)
-	@$(V)/bin/static_guard $(V)/sim/c10/static_whitelist.txt $(B)/static_warnings.txt $(XTP_OBJ)
 	$(CXX) $(OPT) -o $@ $(B)/sim/c10/c10_jobs.o $(B)/sim/c10/io_interpose.o $(CORE_OBJ) $(XTP_OBJ) $(B)/libvotca.a $(C10W) $(LIBS)
+	@$(V)/bin/static_guard $(V)/sim/c10/static_whitelist.txt $@ $@.statics $(XTP_OBJ)
 
 -include $(shell find $(B) -name '*.d' 2>/dev/null)
